@@ -77,6 +77,12 @@ def _sites(tier):
         "for x in (1, 3, 2):\n        assert x <= snapshot()", "s = snapshot()\n    for x in (2, 3, 1):\n        assert x <= s['k']\n        assert x >= s['j']", "for x in (1, 2, 1):\n        assert x in snapshot([3])",
         "s = snapshot()\n    assert s['a'] == 1\n    assert 2 in s['b']\n    assert 3 <= s['c']",
         "s = snapshot({'a': 1, 'z': 0})\n    assert s['a'] == 2\n    assert s['b']['c'] == 3",
+        # classes defined inside the test function
+        "class User:\n        def __repr__(self):\n            return '<User 1>'\n        def __eq__(self, o):\n            return isinstance(o, User) or NotImplemented\n    assert User() == snapshot()",
+        "import enum\n    class Col(enum.Enum):\n        RED = 1\n    assert [Col.RED] == snapshot()",
+        "import enum\n    class Perm2(enum.Flag):\n        R = 1\n        W = 2\n    assert (Perm2.R | Perm2.W) == snapshot(0)",
+        "from dataclasses import dataclass\n    @dataclass\n    class Pt:\n        x: int\n        y: int = 0\n    assert {'k': Pt(1)} == snapshot({'k': Pt(x=2)})",
+        "class K:\n        pass\n    assert [K, int] == snapshot([int])",
         # the compared object is changed by the test after the comparison: both sessions see the same value at comparison time
         "v = ('rows', [1])\n    assert v == snapshot()\n    v[1].append(2)", "v = [1, {'k': (2, [3])}]\n    assert v == snapshot()\n    v[1]['k'][1].append(4)",
         "v = (1, [2])\n    assert v <= snapshot()\n    v[1].append(0)", "v = (frozenset([1]), [2])\n    assert v in snapshot()\n    v[1].clear()",
